@@ -1139,6 +1139,49 @@ def printed_leg(run):
 
 
 # ---------------------------------------------------------------------------------------------
+# (amount, form, line, years in which the form can be requested on its own with nothing but the filing status)
+SUBFORM_ECHO = [('ctc_phaseout_start', '1040_s8812', '9', (2021, 2022, 2023)), ('addl_medicare_threshold', '8959', '5', (2021, 2022))]
+
+
+def _subform_value(year, form, line, status):
+    import configparser
+    from habutax import solver as hs, inputs as hi
+    from habutax.forms import available_forms
+    cp = configparser.ConfigParser()
+    cp.read_string(f'[1040]\nfiling_status = {status}\n')
+    s = hs.Solver(hi.InputStore(cp), available_forms[year])
+    try:
+        s.solve([form], field_names=[f'{form}.{line}'])
+        return s._v.values.get(f'{form}.{line}', 'ABSENT')
+    except Exception as e:
+        return f'{type(e).__name__}: {e}'[:120]
+
+
+def subform_leg(run):
+    import itertools
+    out, n = [], 0
+    for name, form, line, usable in SUBFORM_ECHO:
+        usable = [y for y in usable if name in A.AMOUNTS[y]]
+        for order in itertools.permutations(usable):
+            for y in order:
+                for st in A.statuses(y):
+                    v = _subform_value(y, form, line, st)
+                    n += 1
+                    exp = A.value(y, name, st)
+                    if not isinstance(v, float) or abs(v - exp) > EPS:
+                        out.append((f'C08|{y}|{name}|{st}|subform', f'{name} for {st} {y}: {form} requested alone (after solves of {[o for o in order if o != y]} in the same process) '
+                                    f'gives line {line} = {v!r}, official {exp}', dict(year=y, name=name, status=st, engine='subform')))
+        run.extra.setdefault('subform_leg', {})[name] = dict(form=form, line=line, years=usable)
+    run.count('subform_solves', n)
+    run.evaluations += n
+    seen, uniq = set(), []
+    for k, w, c in out:
+        if k not in seen:
+            seen.add(k)
+            uniq.append((k, w, c))
+    return uniq
+
+
 def work_items(tier):
     variants = (0, 1) if tier == 'thorough' else (0,)
     items = []
@@ -1199,6 +1242,10 @@ def run(tier):
             if n in A.AMOUNTS[yy]:
                 for stt in A.statuses(yy):
                     run.extra.setdefault('uncorroborated', {})[f'{yy}|{n}|{stt}'] = why
+    # sub-form leg: a schedule requested on its own (as the project's own tests do), the years interleaved in one
+    # process in every order: the status-indexed line must be the requested year's amount whatever was solved before
+    for key, what, case in subform_leg(run):
+        run.violation(key, case, what)
     printed = printed_leg(run)
     total = len(list(A.triples()))
     run.exhaustive = True
@@ -1233,6 +1280,19 @@ def _show(v):
 
 
 def replay(case):
+    if case.get('engine') == 'subform':
+        class _R(object):
+            extra = {}
+            evaluations = 0
+
+            def count(self, *a):
+                pass
+        bad = [w for k, w, c in subform_leg(_R()) if c['year'] == case['year'] and c['name'] == case['name'] and c['status'] == case['status']]
+        return (not bad), (bad[0] if bad else 'sub-form solves give the official amount in every order of years')
+    return _replay(case)
+
+
+def _replay(case):
     o = _work((case['year'], case['name'], case['status'], case.get('variant', 0)))
     if case.get('printed'):
         class _R(object):
